@@ -122,7 +122,11 @@ func tsync(c *Case) {
 				// a later thread-sync load from another thread must be refused
 				own := seccomp.Filter{NoNewPrivs: true, Policy: seccomp.Policy{DefaultAction: seccomp.ActionAllow,
 					Syscalls: []seccomp.SyscallGroup{{Names: []string{"getpgrp"}, Action: seccomp.ActionErrno}}}}
-				if err := seccomp.LoadFilter(own); err != nil {
+				err := seccomp.LoadFilter(own)
+				for k := 0; k < 3 && err != nil; k++ { // a transient injected failure of this thread's first call
+					err = seccomp.LoadFilter(own)
+				}
+				if err != nil {
 					l.State = "ownfilter-load-failed"
 				}
 			}
